@@ -74,14 +74,16 @@ CONTRACTS[F + "merge_sum_duplicates"] = dict(
         # copy back: slots 1..result_ptr of the result arrays replace [a0, ind); everything below a0 is untouched
         ("@store:coo.row", 1, "bk = coo.key.copy()\nbv = coo.val.copy()"),
         ("@store:coo.ind", 1,
+         # what was copied back, stated entry by entry over the integer mirror first (so that neither the lemma premise nor KEYED
+         # needs any reasoning about truncation of the float64 result arrays)
+         "assert forall(a0, a0 + result_ptr, lambda p: coo.key[p] == gkey[p - a0 + 1])\n"
+         "assert forall(a0, a0 + result_ptr, lambda p: coo.val[p] == result_val[p - a0 + 1])\n"
+         "assert forall(a0, a0 + result_ptr, lambda p: coo.row[p] == ROWOF(gkey[p - a0 + 1]))\n"
+         "assert forall(a0, a0 + result_ptr, lambda p: coo.col[p] == COLOF(gkey[p - a0 + 1]))\n"
          "lemma(ksum_shift(bk, bv, 0, coo.key, coo.val, 0, KEY, a0))\n"
          "lemma(ksum_shift(result_key, result_val, 1, coo.key, coo.val, a0, KEY, result_ptr))\n"
          "lemma(ksum_split(result_key, result_val, KEY, 0, 1, result_ptr + 1))\n"
-         "lemma(ksum_split(coo.key, coo.val, KEY, 0, a0, a0 + result_ptr))\n"
-         # what was copied back, stated entry by entry over the integer mirror (so that KEYED needs no reasoning about truncation)
-         "assert forall(a0, a0 + result_ptr, lambda p: coo.key[p] == gkey[p - a0 + 1])\n"
-         "assert forall(a0, a0 + result_ptr, lambda p: coo.row[p] == ROWOF(gkey[p - a0 + 1]))\n"
-         "assert forall(a0, a0 + result_ptr, lambda p: coo.col[p] == COLOF(gkey[p - a0 + 1]))"),
+         "lemma(ksum_split(coo.key, coo.val, KEY, 0, a0, a0 + result_ptr))"),
     ],
     loops={
         "for#1": dict(invariant=[
